@@ -17,16 +17,21 @@ import (
 type c07Conn struct {
 	closed   int
 	statuses []int
+	// deadlines currently armed (a zero instant disarms)
+	readArmed, writeArmed bool
 }
 
-func (c *c07Conn) Read(p []byte) (int, error)         { return 0, io.EOF }
-func (c *c07Conn) Write(p []byte) (int, error)        { return len(p), nil }
-func (c *c07Conn) Close() error                       { c.closed++; return nil }
-func (c *c07Conn) LocalAddr() net.Addr                { return nil }
-func (c *c07Conn) RemoteAddr() net.Addr               { return nil }
-func (c *c07Conn) SetDeadline(t time.Time) error      { return nil }
-func (c *c07Conn) SetReadDeadline(t time.Time) error  { return nil }
-func (c *c07Conn) SetWriteDeadline(t time.Time) error { return nil }
+func (c *c07Conn) Read(p []byte) (int, error)  { return 0, io.EOF }
+func (c *c07Conn) Write(p []byte) (int, error) { return len(p), nil }
+func (c *c07Conn) Close() error                { c.closed++; return nil }
+func (c *c07Conn) LocalAddr() net.Addr         { return nil }
+func (c *c07Conn) RemoteAddr() net.Addr        { return nil }
+func (c *c07Conn) SetDeadline(t time.Time) error {
+	c.readArmed, c.writeArmed = !t.IsZero(), !t.IsZero()
+	return nil
+}
+func (c *c07Conn) SetReadDeadline(t time.Time) error  { c.readArmed = !t.IsZero(); return nil }
+func (c *c07Conn) SetWriteDeadline(t time.Time) error { c.writeArmed = !t.IsZero(); return nil }
 
 // stub for (*http.Response).Write: records the status on the fake connection
 func c07StubRespWrite(r *http.Response, w io.Writer) error {
@@ -115,6 +120,10 @@ func VerifC07Mux() {
 			}
 		}
 	} else {
+		// the sniffing deadline must not outlive the hand-over: the tunnel is byte-transparent for as
+		// long as both ends stay open
+		zzverif.Assert(!conn.readArmed && !conn.writeArmed, "C01.mux.no-deadline-left-armed-on-the-handed-over-connection")
+		zzverif.Assert(conn.closed == 0, "C01.mux.handed-over-connection-left-open")
 		zzverif.Reach("C07.mux.admitted")
 	}
 	for _, x := range ls {
